@@ -6,6 +6,7 @@ import (
 	"path/filepath"
 	"sort"
 
+	"seehuhn.de/go/sfnt/cmap"
 	"seehuhn.de/go/sfnt/glyph"
 	"seehuhn.de/go/sfnt/header"
 
@@ -118,3 +119,5 @@ func addTable(b []byte, tag string, data []byte) []byte {
 }
 
 func glyphID(i int) glyph.ID { return glyph.ID(i) }
+
+func cmapFormat4(m map[uint16]glyph.ID) cmap.Format4 { return cmap.Format4(m) }
